@@ -259,3 +259,29 @@ Theorem C05_row_roundtrip :
     row_says st rrows es k f info (file_params (prefix ++ sec) (N.of_nat (List.length prefix)) (N.of_nat k)).
 Proof. exact (row_roundtrip C05_writer_order C05_reader_order C05_len_thresholds C05_pos_limit C05_word_mask). Qed.
 Print Assumptions C05_row_roundtrip.
+
+(* ====================================================================================================================
+   The route a user takes to an entry: index form -> index lookup -> word id -> fields.
+   index_cert (checked on the compiled bytes of the correspondence run): builder C's model of IndexBuilder / write_index
+   (Model/IndexBuild.v: key = bytes of the index form, indexed iff left_id >= 0, id = record number) run on the rows
+   the lexicon reader parsed reproduces the word-id table section and the (key, offset) pairs of the trie section.
+   Then, by C04_lookup_exact_of_index_model (lookup = naive scan of the rows), looking up the index form of ANY indexed
+   record k finds k itself, ending exactly at the end of the key, and everything it finds is an indexed record whose
+   index form is a prefix of the key.  With C05_row_roundtrip for that k: the fields behind the id are the row's. *)
+From SudachiVerif Require Properties.C04 Model.LexSet Model.IndexBuild Proofs.TrieProofs.
+From SudachiVerif Require Import Model.CodecCheck Proofs.CodecIndexProofs.
+
+Theorem C05_lookup_roundtrip :
+  forall rows st rrows impl_trie impl_table fuel,
+  Forall fields_scalar rows -> parse_records nil rows = ROk (st, rrows) ->
+  N.of_nat (List.length rrows) <= 268435456 ->
+  IndexBuild.index_cert (lex_of_sections impl_trie impl_table) (index_rows_of rrows) fuel = true ->
+  forall k r, nth_error rrows k = Some r -> (0 <= e_left (r_entry r))%Z ->
+  exists l,
+    LexSet.lex_lookup (lex_of_sections impl_trie impl_table) 0 (utf8_bytes (r_surface r)) 0 = Some l /\
+    In (LexSet.stamp 0 (N.of_nat k), utf8_len (r_surface r)) l /\
+    forall w e, In (w, e) l ->
+      exists j r', nth_error rrows j = Some r' /\ (0 <= e_left (r_entry r'))%Z /\ w = LexSet.stamp 0 (N.of_nat j) /\
+                   TrieProofs.is_prefix (utf8_bytes (r_surface r')) (utf8_bytes (r_surface r)) /\ e = utf8_len (r_surface r').
+Proof. exact (lookup_roundtrip_of C04.C04_lookup_exact_of_index_model C05_pos_limit C05_word_mask). Qed.
+Print Assumptions C05_lookup_roundtrip.
